@@ -5,7 +5,7 @@
 #include <algorithm>
 using namespace coloquinte;
 
-struct GenOpts { bool multirow = true, polarity = true, turned = true, fixed = true, splitrows = true, nets = false, mixedSplit = false; int maxCells = 12; long long scale = 1; int utilLo = 30, utilHi = 110; };
+struct GenOpts { bool multirow = true, polarity = true, turned = true, fixed = true, splitrows = true, nets = false, mixedSplit = false, tile = false; int maxCells = 12; long long scale = 1; int utilLo = 30, utilHi = 110; };
 
 struct TCircuit {   // textual circuit
   std::vector<std::array<long long, 5>> rows;                 // minX maxX minY maxY orient
@@ -14,7 +14,45 @@ struct TCircuit {   // textual circuit
   std::vector<int> netw2;                                     // weight * 2
 };
 
+// rows tiled exactly by row-high cells sitting at their positions (a legal placement with segments filled to 100 %,
+// some with gaps): aims at the "exactly fits" boundaries of the legalizers (remainingSpace == width, limit == target)
+inline TCircuit genTiled(SplitMix &g, const GenOpts &o) {
+  TCircuit t; long long sc = o.scale;
+  long long rh = g.uni(1, 4) * 2 * sc; int nrows = (int)g.uni(1, 4);
+  long long x0 = g.uni(-20, 20) * sc, y0 = g.uni(-20, 20) * sc, W = g.uni(4, 24) * sc;
+  for (int i = 0; i < nrows; ++i) {
+    int ro = (i % 2 == 0) ? 0 : 5;
+    long long a = x0, b = x0 + W;
+    if (o.splitrows && g.coin(30) && W >= 8 * sc) {   // a fixed obstruction in the middle of the row
+      long long m = g.uni(2, W / sc - 4) * sc, gw = g.uni(1, 2) * sc;
+      t.cells.push_back({x0 + m, y0 + i * rh, gw, rh, 0, 0, 1, 1});
+    }
+    t.rows.push_back({a, b, y0 + i * rh, y0 + (i + 1) * rh, ro});
+  }
+  // tile every free stretch of every row
+  size_t nfixed = t.cells.size();
+  for (int i = 0; i < nrows; ++i) {
+    long long x = x0; bool full = g.coin(70);
+    while (x < x0 + W) {
+      long long stop = x0 + W;
+      for (size_t f = 0; f < nfixed; ++f) { auto &fc = t.cells[f]; if (fc[1] == y0 + i * rh && fc[0] >= x && fc[0] < stop) stop = fc[0]; }
+      if (stop == x) { for (size_t f = 0; f < nfixed; ++f) { auto &fc = t.cells[f]; if (fc[1] == y0 + i * rh && fc[0] == x) x = fc[0] + fc[2]; } continue; }
+      long long w = std::min(stop - x, g.uni(1, 5) * sc);
+      if (!full && g.coin(25)) { x += w; continue; }      // a gap
+      int pol = (o.polarity && g.coin(30)) ? (int)g.uni(1, 2) : 0;
+      int ori = (int)t.rows[i][4];
+      if (pol == 2) ori = ori == 0 ? 5 : 0;               // OPPOSITE: N <-> FS
+      if (pol == 0) { int os[4] = {0, 1, 4, 5}; ori = os[g.uni(0, 3)]; }
+      t.cells.push_back({x, y0 + i * rh, w, rh, ori, pol, 0, 1});
+      x += w;
+    }
+  }
+  for (size_t i = t.cells.size(); i > 1; --i) std::swap(t.cells[i - 1], t.cells[g.uni(0, i - 1)]);
+  return t;
+}
+
 inline TCircuit genCircuit(SplitMix &g, const GenOpts &o) {
+  if (o.tile) return genTiled(g, o);
   TCircuit t; long long sc = o.scale;
   long long rh = g.uni(1, 4) * 2 * sc;
   int nrows = (int)g.uni(1, 6);
